@@ -301,4 +301,62 @@ theorem runC_eq [WOps α] (cfg : Cfg α) (hw : WOps.lt cfg.wOne (WOps.zero : α)
     rw [runC_eq cfg hw hone ops (step cfg st op) (cinv_step cfg hw hone st hinv op)]
     rfl
 
+/-! ### the two-vector constructor `PDF(data, weights)`: as coded, `add` in a loop on a fresh object -/
+
+theorem ofWeights_snoc [WOps α] (ws : List α) (w : α) : Pdf.ofWeights (ws ++ [w]) = (Pdf.ofWeights ws).add w := by
+  simp [Pdf.ofWeights, List.foldl_append]
+
+structure CtorSpec (ws : List α) (s : Pdf α) : Prop where
+  shape : ShapeInv s
+  idx : IdxSync s
+  size : s.data.size = ws.length
+  next : s.next = ws.length
+  pos : ∀ i, i < ws.length → s.data[i]? = some i
+  weight : ∀ i, i < ws.length → s.getWeight i = ws[i]?
+
+theorem ctorSpec_add [WOps α] (pre : List α) (s : Pdf α) (w : α) (ih : CtorSpec pre s)
+    (hw : WOps.lt w (WOps.zero : α) = false) : CtorSpec (pre ++ [w]) (s.add w) := by
+  have hsz : (s.add w).data = s.data.push s.next := by
+    unfold Pdf.add; simp [hw]
+  have hnx : (s.add w).next = s.next + 1 := by
+    unfold Pdf.add; simp [hw]
+  refine ⟨shapeInv_add _ _ ih.shape, idxSync_add _ _ ih.idx, by rw [hsz]; simp [ih.size], by rw [hnx, ih.next]; simp,
+    ?_, ?_⟩
+  · intro i hi
+    rw [hsz, Array.getElem?_push, ih.size, ih.next]
+    by_cases h : i = pre.length
+    · simp [h]
+    · have : i < pre.length := by simp at hi; omega
+      simp [h, ih.pos i this]
+  · intro i hi
+    rw [gw_add _ ih.shape ih.idx _ hw, ih.next]
+    by_cases h : i = pre.length
+    · simp [h]
+    · have hlt : i < pre.length := by simp at hi; omega
+      simp [h, ih.weight i hlt, List.getElem?_append_left hlt]
+
+theorem ctorSpec_foldl [WOps α] : ∀ (ws pre : List α) (s : Pdf α), CtorSpec pre s →
+    (∀ w ∈ ws, WOps.lt w (WOps.zero : α) = false) → CtorSpec (pre ++ ws) (ws.foldl Pdf.add s)
+  | [], pre, s, h, _ => by simpa using h
+  | w :: ws, pre, s, h, hnn => by
+    have := ctorSpec_foldl ws (pre ++ [w]) (s.add w) (ctorSpec_add pre s w h (hnn w (by simp)))
+      (fun x hx => hnn x (by simp [hx]))
+    simpa using this
+
+theorem ofWeights_spec [WOps α] (ws : List α) (hnn : ∀ w ∈ ws, WOps.lt w (WOps.zero : α) = false) :
+    CtorSpec ws (Pdf.ofWeights ws) := by
+  have := ctorSpec_foldl ws [] ({} : Pdf α)
+    ⟨shapeInv_empty, idxSync_empty, rfl, rfl, fun i hi => by simp at hi, fun i hi => by simp at hi⟩ hnn
+  simpa [Pdf.ofWeights] using this
+
+/-- `tree_` is empty exactly when `data_` is, and no row of `tree_` is ever empty -/
+theorem tree_nil_iff (s : Pdf α) (hs : ShapeInv s) : (s.tree = [] ↔ s.data.size = 0) ∧ ∀ r ∈ s.tree, 0 < r.size := by
+  unfold ShapeInv at hs
+  constructor
+  · constructor
+    · intro h; rw [h] at hs; exact hs
+    · intro h; rw [h, shapeSizes_zero_iff, sizes_eq_nil] at hs; exact hs
+  · intro r hr
+    exact shapeSizes_pos _ _ hs r.size (by unfold sizes; exact List.mem_map_of_mem hr)
+
 end OmplModel.CellPdf
